@@ -315,6 +315,53 @@ seeded("w6-control-chars-quoted", ["C08"], "W6", [(M, '''                if b"\\
 
 benign("c08-escape-helper", ["C08"], [(M, '''                    a = a.replace(b"\\\\", b"\\\\\\\\").replace(b'"', b'\\\\"')
                     ret += [b'"' + a + b'"']''', '''                    ret += [b'"' + a.replace(b"\\\\", b"\\\\\\\\").replace(b'"', b'\\\\"') + b'"']''')])
+T = "sievelib/tools.py"
+_C08_HELPER_CALL = (M, '''                    a = a.replace(b"\\\\", b"\\\\\\\\").replace(b'"', b'\\\\"')
+                    ret += [b'"' + a + b'"']''', '''                    ret += [tools.quote_string(a)]''')
+benign("c08-quote-helper-in-tools", ["C08"], [_C08_HELPER_CALL, (T, '''from typing import List
+''', '''import re
+from typing import List
+
+QUOTED_SPECIALS = re.compile(rb'(["\\\\])')
+
+
+def quote_string(value: bytes) -> bytes:
+    return b'"' + QUOTED_SPECIALS.sub(rb"\\\\\\1", value) + b'"'
+''')], "quoting moved to a helper that escapes every special character separately")
+seeded("w2-quote-helper-escapes-runs", ["C08"], "W2", [_C08_HELPER_CALL, (T, '''from typing import List
+''', '''import re
+from typing import List
+
+QUOTED_SPECIALS = re.compile(rb'(["\\\\]+)')
+
+
+def quote_string(value: bytes) -> bytes:
+    return b'"' + QUOTED_SPECIALS.sub(rb"\\\\\\1", value) + b'"'
+''')], "one backslash per RUN of specials")
+benign("c08-local-write-accumulator", ["C08", "C15", "C10", "C05"], [(M, '''        self.sock.sendall(tosend + CRLF)
+        if extralines:
+            for l in extralines:
+                self.sock.sendall(l + CRLF)
+''', '''        out = tosend + CRLF
+        if extralines:
+            for l in extralines:
+                out += l + CRLF
+        self.sock.sendall(out)
+''')], "command and extra lines written with one sendall from a local buffer")
+seeded("w1-instance-write-buffer", ["C08", "C15"], "W1", [(M, '''        self.sock.sendall(tosend + CRLF)
+        if extralines:
+            for l in extralines:
+                self.sock.sendall(l + CRLF)
+''', '''        self.wbuf += tosend + CRLF
+        if extralines:
+            for l in extralines:
+                self.wbuf += l + CRLF
+        self.sock.sendall(self.wbuf)
+        self.wbuf = b""
+'''), (M, '''        self.authenticated: bool = False
+        self.errcode''', '''        self.authenticated: bool = False
+        self.wbuf = b""
+        self.errcode''')], "unsent bytes of a failed write are sent with the next command")
 benign("c08-not-in-tests", ["C08"], [(M, '''                if b"\\r" in a or b"\\n" in a or b"\\0" in a:
                     # not representable as a quoted string
                     ret += [b"{%d+}%s%s" % (len(a), CRLF, a)]
@@ -425,6 +472,23 @@ seeded("r7-emulation-always", ["C14"], "R7", [(M, '''        if "VERSION" in sel
                 return True
 ''')], "falls through to the emulation after a native NO")
 seeded("r7-args-swapped", ["C14"], "R7", [(M, '''"RENAMESCRIPT", [oldname.encode("utf-8"), newname.encode("utf-8")]''', '''"RENAMESCRIPT", [newname.encode("utf-8"), oldname.encode("utf-8")]''')])
+benign("c14-emulation-in-helper", ["C14", "C09", "C10", "C15"], [(M, '''            return False
+
+        listing = self.listscripts()
+        if listing is None:
+            return False
+        (active_script, scripts) = listing''', '''            return False
+        return self._emulate_rename(oldname, newname)
+
+    @authentication_required
+    def _emulate_rename(self, oldname: str, newname: str) -> bool:
+        listing = self.listscripts()
+        if listing is None:
+            return False
+        (active_script, scripts) = listing''')], "extract-method: the emulation moved to a guarded helper")
+seeded("r3-empty-script-is-failure", ["C14", "C09"], "R3", [(M, '''        if oldscript is None:
+            return False''', '''        if not oldscript:
+            return False''')], "a script with empty content cannot be renamed")
 benign("c14-not-in-form", ["C14"], [(M, '''        if newname == active_script or newname in scripts:
             self.errmsg = b"New script already exists"
             return False
@@ -1355,3 +1419,51 @@ seeded("p15-number-as-string", ["C01", "C03"], "P15", [(P, '''        if ttype i
             return self.__curcommand.check_next_arg(ttype, tvalue.decode("ascii"))''', '''        if ttype in ["number", "tag"]:
             return self.__curcommand.check_next_arg("tag" if ttype == "tag" else "string", tvalue.decode("ascii"))''')])
 seeded("p15-value-lowercased", ["C01", "C03"], "P15", [(P, '''            return self.__curcommand.check_next_arg("string", tvalue.decode("utf-8"))''', '''            return self.__curcommand.check_next_arg("string", tvalue.decode("utf-8").strip())''')])
+
+_MOVE_OLD = '''        cpt = 0
+        for f in self.filters:
+            if f["name"] == name:
+                if direction == "up":
+                    if cpt == 0:
+                        return False
+                    self.filters.remove(f)
+                    self.filters.insert(cpt - 1, f)
+                    return True
+                if cpt == len(self.filters) - 1:
+                    return False
+                self.filters.remove(f)
+                self.filters.insert(cpt + 1, f)
+                return True
+            cpt += 1
+'''
+benign("c12-move-by-swap", ["C12", "C11", "C19", "C06"], [(F, _MOVE_OLD, '''        for cpt, f in enumerate(self.filters):
+            if f["name"] != name:
+                continue
+            if direction == "up":
+                if cpt == 0:
+                    return False
+                self.filters[cpt], self.filters[cpt - 1] = self.filters[cpt - 1], self.filters[cpt]
+                return True
+            if cpt == len(self.filters) - 1:
+                return False
+            self.filters[cpt], self.filters[cpt + 1] = self.filters[cpt + 1], self.filters[cpt]
+            return True
+''')], "movefilter as a guarded in-place swap of neighbours")
+seeded("o3-swap-negative-index", ["C12"], "O3", [(F, _MOVE_OLD, '''        for cpt, f in enumerate(self.filters):
+            if f["name"] != name:
+                continue
+            newpos = cpt - 1 if direction == "up" else cpt + 1
+            try:
+                self.filters[cpt], self.filters[newpos] = self.filters[newpos], f
+            except IndexError:
+                return False
+            return True
+''')], "index -1 wraps to the last entry")
+
+seeded("u7-connect-ignores-verdict", ["C16"], "U7", [(M, '''        if self.__authenticate(login, password, authz_id, authmech):
+            return True
+        return False''', '''        self.__authenticate(login, password, authz_id, authmech)
+        return True''')], "connect reports success whatever the server answered")
+benign("c16-connect-returns-call", ["C16", "C10"], [(M, '''        if self.__authenticate(login, password, authz_id, authmech):
+            return True
+        return False''', '''        return self.__authenticate(login, password, authz_id, authmech)''')])
